@@ -9,11 +9,12 @@ RULE = ("every class layout of length 0..L over 3 classes (declared class count 
         "occur) x the full small parameter grid of every subset-family wrapper (class filter, percent filter, subset, shuffle, "
         "repeat, oversampling, sort-by-class, intra-class shuffle, few-shot, class-wise subset); selected sample ids compared "
         "with a per-wrapper specification (exact where documented, relational - contiguity, monotonicity, complementary "
-        "partition - where rounding is undocumented); constructors run under a line-event horizon; distinct = distinct "
+        "partition - where rounding is undocumented); constructors run under a CPU-time horizon; distinct = distinct "
         "(wrapper, parameters, layout, selected ids) with a non-empty selection")
 
 PERCENTS = (None, 0, 0.0, .15, .2, 1 / 3, .5, .99, 1, 1.0)
 HORIZON = 200_000
+HORIZON_S = 4.0
 _LIB = {}
 
 
@@ -22,21 +23,20 @@ class Horizon(BaseException):
 
 
 def with_horizon(fn):
-    """Run fn() under a deterministic line-event budget: exceeding it means 'does not terminate'."""
-    count = [0]
+    """Run fn() under a CPU-time budget of this process (ITIMER_VIRTUAL counts user CPU time only, so machine load does not
+    matter): a constructor needs well under a millisecond; exceeding HORIZON_S seconds of CPU means 'does not terminate'."""
+    import signal
 
-    def tracer(frame, event, arg):
-        count[0] += 1
-        if count[0] > HORIZON:
-            raise Horizon()
-        return tracer
+    def on_alarm(signum, frame):
+        raise Horizon()
 
-    old = sys.gettrace()
-    sys.settrace(tracer)
+    old = signal.signal(signal.SIGVTALRM, on_alarm)
+    signal.setitimer(signal.ITIMER_VIRTUAL, HORIZON_S)
     try:
         return fn()
     finally:
-        sys.settrace(old)
+        signal.setitimer(signal.ITIMER_VIRTUAL, 0)
+        signal.signal(signal.SIGVTALRM, old)
 
 
 def lib():
@@ -125,7 +125,7 @@ class Checker:
             self.p.count(f"rejected:{wrapper}")
             return None
         if st == "hang":
-            self.bad(wrapper, "does_not_terminate", kwargs, f"constructor exceeded {HORIZON} line events")
+            self.bad(wrapper, "does_not_terminate", kwargs, f"constructor used more than {HORIZON_S} s of CPU time")
             return None
         kind = val.split(":")[0]
         self.bad(wrapper, f"crash:{kind}", kwargs, val, extra="|" + "+".join(sorted(k for k, v in kwargs.items() if v is not None)))
@@ -399,7 +399,7 @@ def run(run):
     tasks.reverse()
     run.pmap(task, tasks)
     run.extra.update(bounds=dict(layout_len=f"0..{maxlen}", classes=3, percents=[repr(p) for p in PERCENTS],
-                                 seeds=[None, 0, 1, 2], horizon_line_events=HORIZON), layouts=len(lays))
+                                 seeds=[None, 0, 1, 2], horizon_cpu_seconds=HORIZON_S), layouts=len(lays))
     run.assumptions += [
         "AssertionError / NotImplementedError / ValueError from a constructor count as explicit rejection",
         "percent rounding is undocumented: only contiguity, monotonicity and complementary partition are required",
